@@ -274,49 +274,67 @@ def kx_coord_index(params, timeout):
             return ("short", len(labels))
         return ("idx", D.get_coord_index(arr, "time", labels[i]))
 
+    import time
+
     saved = (D.np, D.xr, D.__dict__.get("int"))
     D.np, D.xr = fake_np, xrl.xarray
     D.int = kx_int
+    queries, npaths, useful, spent = 0, 0, 0, 0.0
+    unknown = False
+    found = None
+    t0 = time.time()
     try:
-        paths = kx.explore(run, max_paths=200, base=base, prune_timeout_ms=3000)
+        # queries are posed as the paths arrive (the sample's own path first); the whole search — exploration,
+        # pruning and solving — stops at the obligation's budget
+        for pc, res in kx.explore_iter(run, max_paths=200, base=base, prune_timeout_ms=3000, deadline=t0 + timeout):
+            npaths += 1
+            if isinstance(res, (KeyError, IndexError, ValueError)):
+                bad = z3.BoolVal(True)  # an in-range coordinate raised
+            elif isinstance(res, Exception):
+                unknown = True  # unexplorable branch or a gap in the models: no verdict from this path
+                continue
+            elif res[0] == "short":
+                continue
+            else:
+                useful += 1
+                idx = res[1]
+                if isinstance(idx, kx.ZI):
+                    bad = idx.e != i
+                else:
+                    bad = z3.BoolVal(int(idx) != i)
+            if z3.is_false(z3.simplify(bad)):
+                continue
+            left = timeout - (time.time() - t0)
+            if left < 5:
+                unknown = True
+                break
+            r = kx.solve(base + pc + [bad], max(5.0, left / 4), {"start": start, "step": step})
+            queries += 1
+            spent += r["solve_s"]
+            if r["status"] == "sat":
+                found = r["model"]
+                break
+            if r["status"] != "unsat":
+                unknown = True
     finally:
         D.np, D.xr = saved[0], saved[1]
         if saved[2] is None:
             del D.int
         else:
             D.int = saved[2]
-    queries = 0
-    t_left = timeout
-    unknown = False
-    for pc, res in paths:
-        if isinstance(res, Exception):
-            bad = z3.BoolVal(True)  # an in-range coordinate raised
-        elif res[0] == "short":
-            continue
-        else:
-            idx = res[1]
-            if isinstance(idx, kx.ZI):
-                bad = idx.e != i
-            else:
-                bad = z3.BoolVal(int(idx) != i)
-        if z3.is_false(z3.simplify(bad)):
-            continue
-        r = kx.solve(base + pc + [bad], max(5.0, t_left / 4), {"start": start, "step": step})
-        queries += 1
-        t_left -= r["solve_s"]
-        if r["status"] == "sat":
-            m = r["model"]
-            return {"status": "refuted", "replay_fn": "ob_coord_on_range", "args": [[m["start"], m["step"]], {}],
-                    "queries": queries, "paths": len(paths), "solve_s": round(timeout - t_left, 1),
-                    "message": "z3 model: lookup of coordinate %d of an %d-step axis returns another index for "
-                    "start=%r step=%r" % (i, N, m["start"], m["step"]),
-                    "clause": "looking up a coordinate value does not return that coordinate's index"}
-        if r["status"] != "unsat":
-            unknown = True
-    out = {"queries": queries, "paths": len(paths), "solve_s": round(timeout - t_left, 1)}
-    if unknown:
-        out.update(status="searched", message="no IEEE counterexample found within the budget (z3: unknown on "
-                   "some path)")
+    if found is not None:
+        m = found
+        return {"status": "refuted", "backend": kx.LAST["backend"], "replay_fn": "ob_coord_on_range", "args": [[m["start"], m["step"]], {}],
+                "queries": queries, "paths": npaths, "solve_s": round(spent, 1),
+                "message": "solver model: lookup of coordinate %d of an %d-step axis returns another index for "
+                "start=%r step=%r" % (i, N, m["start"], m["step"]),
+                "clause": "looking up a coordinate value does not return that coordinate's index"}
+    out = {"queries": queries, "paths": npaths, "solve_s": round(spent, 1), "unexplored": kx.EXHAUSTED["left"]}
+    if not useful:
+        out.update(status="error", message="vacuous: no explored path performed the lookup")
+    elif unknown or kx.EXHAUSTED["left"]:
+        out.update(status="searched", message="no IEEE counterexample found within the budget (solver unknown on "
+                   "some path, or paths left unexplored)")
     else:
         out.update(status="confirmed")
     return out
@@ -374,30 +392,146 @@ def kx_range_count(params, timeout):
         v = D.create_range_dim("x", start, stop, step=step)
         return len(v.data.tolist())
 
+    import time
+
     saved = (D.np, D.xr)
     D.np, D.xr = fake_np, xrl.xarray
+    queries, spent, unknown, npaths, useful = 0, 0.0, False, 0, 0
+    found = None
+    t0 = time.time()
     try:
-        paths = kx.explore(run, max_paths=24, base=base, prune_timeout_ms=3000)
+        for pc, res in kx.explore_iter(run, max_paths=24, base=base, prune_timeout_ms=3000, deadline=t0 + timeout):
+            npaths += 1
+            if isinstance(res, Exception):
+                continue
+            useful += 1
+            if res == N:
+                continue
+            left = timeout - (time.time() - t0)
+            if left < 5:
+                unknown = True
+                break
+            r = kx.solve(base + pc, max(10.0, left / 2), {"start": start, "step": step})
+            queries += 1
+            spent += r["solve_s"]
+            if r["status"] == "sat":
+                found = (r["model"], res)
+                break
+            if r["status"] != "unsat":
+                unknown = True
     finally:
         D.np, D.xr = saved
-    queries, spent, unknown = 0, 0.0, False
-    for pc, res in paths:
-        if isinstance(res, Exception) or res == N:
-            continue
-        r = kx.solve(base + pc, max(10.0, (timeout - spent) / 2), {"start": start, "step": step})
-        queries += 1
-        spent += r["solve_s"]
-        if r["status"] == "sat":
-            m = r["model"]
-            return {"status": "refuted", "replay_fn": "ob_range_count", "args": [[m["start"], m["step"]], {}],
-                    "queries": queries, "paths": len(paths), "solve_s": round(spent, 1),
-                    "message": "z3 model: %d exact steps but %d coordinates for start=%r step=%r" % (N, res, m["start"], m["step"]),
-                    "clause": "(stop - start)/step is the whole number N but there are not N coordinates"}
-        if r["status"] != "unsat":
-            unknown = True
-    out = {"queries": queries, "paths": len(paths), "solve_s": round(spent, 1)}
-    out.update(status="searched" if unknown else "confirmed",
-               message="no IEEE counterexample found within the budget (z3: unknown)" if unknown else "every path with another count is unsat")
+    if found is not None:
+        m, res = found
+        return {"status": "refuted", "backend": kx.LAST["backend"], "replay_fn": "ob_range_count", "args": [[m["start"], m["step"]], {}],
+                "queries": queries, "paths": npaths, "solve_s": round(spent, 1),
+                "message": "solver model: %d exact steps but %d coordinates for start=%r step=%r" % (N, res, m["start"], m["step"]),
+                "clause": "(stop - start)/step is the whole number N but there are not N coordinates"}
+    out = {"queries": queries, "paths": npaths, "solve_s": round(spent, 1), "unexplored": kx.EXHAUSTED["left"]}
+    if not useful:
+        out.update(status="error", message="vacuous: no explored path returned a range")
+    elif unknown or kx.EXHAUSTED["left"]:
+        out.update(status="searched", message="no IEEE counterexample found within the budget (solver unknown)")
+    else:
+        out.update(status="confirmed", message="every path with another count is unsat")
+    return out
+
+
+def ob_range_nominal(start: float, step: float) -> bool:
+    """
+    pre: 0 <= start <= 1000000 and 0.000001 <= step <= 1000
+    post: _
+    """
+    # replay target of the nominal IEEE search: the caller asks for N steps and computes stop = start + N*step in
+    # doubles (the property's quantifier: "every start, step, number of steps", 0.1 and 1/44100 included); the
+    # range then has exactly N coordinates, all in [start, stop)
+    N = h.P("N")
+    stop = start + N * step
+    v = D.create_range_dim("x", start, stop, step=step)
+    xs = _labels(v)
+    if len(xs) != N:
+        return h.fail("N steps requested (stop = start + N*step in doubles) but there are not N coordinates")
+    for x in xs:
+        if not (start <= x < stop):
+            return h.fail("coordinate outside [start, stop)")
+    return h.done(any=True)
+
+
+def kx_range_nominal(params, timeout):
+    """IEEE-754 search, nominal premise: the real create_range_dim is run over z3 Float64 terms with
+    stop = fl(start + fl(N*step)); np.arange is its contract in doubles (length ceil((stop-start)/step) computed in
+    floating point, N-1..N+1 explored; element i = start + i*((start+step)-start)); the solvers are asked for doubles
+    (start, step) for which the function does not return N coordinates."""
+    import time
+    import types
+
+    import z3
+
+    from models import npl, xrl
+    from vf import kx
+
+    N = params["N"]
+    start, step = kx.var("start", 0.5), kx.var("step", 0.25)
+    stop = start + step * float(N)
+    base = [kx.finite_between(start, 0.0, 1000000.0), kx.finite_between(step, 0.000001, 1000.0)]
+
+    def arange(start=None, stop=None, step=1, dtype=None):
+        a, b, s_ = start, stop, step
+        length = kx.arange_len(a, b, s_)
+        delta = (a + s_) - a
+        for k in (N, N + 1, N - 1):
+            if k >= 0 and kx.ZB(z3.fpEQ(length, z3.FPVal(float(k), kx.F64)), True if k == N else None):
+                return npl.ndarray([a + j * delta for j in range(k)], (k,), None)
+        raise kx.SymbolicBranch("range length outside N-1..N+1")
+
+    fake_np = types.SimpleNamespace(arange=arange, float64=npl.float64, ndarray=npl.ndarray)
+
+    def run():
+        v = D.create_range_dim("x", start, stop, step=step)
+        return len(v.data.tolist())
+
+    saved = (D.np, D.xr)
+    D.np, D.xr = fake_np, xrl.xarray
+    queries, spent, unknown, npaths, useful = 0, 0.0, False, 0, 0
+    found = None
+    t0 = time.time()
+    try:
+        for pc, res in kx.explore_iter(run, max_paths=24, base=base, prune_timeout_ms=3000, deadline=t0 + timeout):
+            npaths += 1
+            if isinstance(res, Exception):
+                unknown = True
+                continue
+            useful += 1
+            if res == N:
+                continue
+            left = timeout - (time.time() - t0)
+            if left < 5:
+                unknown = True
+                break
+            r = kx.solve(base + pc, max(10.0, left / 2), {"start": start, "step": step})
+            queries += 1
+            spent += r["solve_s"]
+            if r["status"] == "sat":
+                found = (r["model"], res)
+                break
+            if r["status"] != "unsat":
+                unknown = True
+    finally:
+        D.np, D.xr = saved
+    if found is not None:
+        m, res = found
+        return {"status": "refuted", "backend": kx.LAST["backend"], "replay_fn": "ob_range_nominal",
+                "args": [[m["start"], m["step"]], {}], "queries": queries, "paths": npaths, "solve_s": round(spent, 1),
+                "message": "solver model: %d steps requested but %d coordinates for start=%r step=%r"
+                % (N, res, m["start"], m["step"]),
+                "clause": "N steps requested (stop = start + N*step in doubles) but there are not N coordinates"}
+    out = {"queries": queries, "paths": npaths, "solve_s": round(spent, 1), "unexplored": kx.EXHAUSTED["left"]}
+    if not useful:
+        out.update(status="error", message="vacuous: no explored path returned a range")
+    elif unknown or kx.EXHAUSTED["left"]:
+        out.update(status="searched", message="no IEEE counterexample found within the budget (solver unknown)")
+    else:
+        out.update(status="confirmed", message="every path with another count is unsat")
     return out
 
 
@@ -418,8 +552,10 @@ def plan():
         obs.append(Ob("coord-index-n%d" % n, ob_coord_index, "ieee", 900, dict(n=n), q, twins=tw, twin_timeout=600))
     for N in (1, 3, 8, 100):
         obs.append(Ob("ieee-range-count-N%d" % N, kx_range_count, "kx", 600, dict(N=N), ("thorough",), kind="py"))
+    for N in (3, 8):
+        obs.append(Ob("ieee-range-nominal-N%d" % N, kx_range_nominal, "kx", 600, dict(N=N), ("thorough",), kind="py"))
     for (N, i) in ((3, 1), (3, 2), (5, 4), (8, 5), (8, 7)):
-        obs.append(Ob("ieee-lookup-N%d-i%d" % (N, i), kx_coord_index, "kx", 1500, dict(N=N, i=i),
+        obs.append(Ob("ieee-lookup-N%d-i%d" % (N, i), kx_coord_index, "kx", 600, dict(N=N, i=i),
                       ("thorough",), kind="py"))
     for (nt, nf) in ((1, 1), (2, 3), (3, 2), (3, 3)):
         for order in ("tf", "ft"):
